@@ -118,8 +118,14 @@ func lrGrammarGen(stateful, throw bool) *rapid.Generator[*Grammar] {
 			choice := &Expr{K: KChoice}
 			lr := &LRInfo{Via: via}
 			nT := c.intn(1, 3, "ntails")
+			mixed := via != "" && c.chance(30, "mixedrecursion")
 			for i := 0; i < nT; i++ {
 				rec := &Expr{K: KRef, Name: recName}
+				if mixed && i == 0 && nT > 1 {
+					// the first tail recurses directly, the others through the via rule
+					// ( L <- L t / V u / b ; V <- L w ): the rule that is on every cycle is L
+					rec = &Expr{K: KRef, Name: name}
+				}
 				var first *Expr = rec
 				if c.chance(70, "reclabel") {
 					first = &Expr{K: KLabel, Name: c.label(), Sub: []*Expr{rec}}
@@ -284,11 +290,28 @@ func lrGrammarGen(stateful, throw bool) *rapid.Generator[*Grammar] {
 	})
 }
 
+// directlyRecursive reports whether some recursive alternative of the rule starts with a
+// reference to the rule itself.
+func directlyRecursive(r *Rule) bool {
+	for _, i := range r.LR.Tails {
+		e := r.Expr.Sub[i]
+		for e.K == KAction || e.K == KLabel || e.K == KSeq {
+			e = e.Sub[0]
+		}
+		if e.K == KRef && e.Name == r.Name {
+			return true
+		}
+	}
+	return false
+}
+
 // NonLeaderEntry reports whether the grammar contains an indirect cycle that is entered
 // through a rule that is not its leader (pigeon picks the smallest name of the cycle).
 func (g *Grammar) NonLeaderEntry() bool {
 	for _, r := range g.Rules {
-		if r.LR != nil && r.LR.Via != "" && r.LR.Via < r.Name {
+		if r.LR != nil && r.LR.Via != "" && r.LR.Via < r.Name && !directlyRecursive(r) {
+			// (a rule that also recurses directly is on a cycle of its own: it is the only rule on
+			// every cycle, hence the leader whatever the names)
 			return true
 		}
 	}
